@@ -175,4 +175,7 @@ def check(ctx) -> Result:
     d = ctx.func(DISP, "Display")
     last = d.node.body[-1]
     res.add(isinstance(last, ast.Raise) and "DisplayError" in src(last), "D-unknown-display-type", "Display", d.site(last), d.qualname, "unknown display type ends in raise DisplayError", "an unknown display type is no longer rejected with DisplayError", construct=src(last)[:80])
+    from ..rules import rz_falsy
+    nz = rz_falsy.none_checks(ctx, res, "C19", ())
+    res.floor("Z functions scanned", nz, 3)
     return res
